@@ -90,6 +90,16 @@ __CPROVER_assigns(g_es->encountered_errors._n, __CPROVER_object_whole(ERRS))
 __CPROVER_ensures(g_num_val < INT_MAX || (NE == OLD(NE) + 1 && ERRS[NE - 1].t == PE_RANGE)) /*@C20,C02*/
 /* ... every other one is converted exactly and silently */
 __CPROVER_ensures(g_num_val >= INT_MAX || (__CPROVER_return_value == (int)g_num_val && NE == OLD(NE))) /*@C20*/;
+
+/* C02 (no out-of-range access when a replacement is built): an insertion index `$N` is range-checked at extraction time with the
+ * value strToInt gives, but the token keeps its text and apply_macros converts it again with strToIntSilent - the two
+ * conversions must agree on EVERY digit string, in particular on those that do not fit the word (a RANGE error is recorded
+ * for them, but the token stays an insertion) */
+_Bool c_mconv_agree(void *p, long tok_id)
+REQ_ES(p)
+__CPROVER_requires(tok_id == g_num_id && g_num_val >= 0)
+__CPROVER_assigns(g_es->encountered_errors._n, __CPROVER_object_whole(ERRS))
+__CPROVER_ensures(__CPROVER_return_value == 1) /*@C02*/;
 #ifdef SPEC_CHECKS_OFF
 #pragma CPROVER check pop
 #endif
@@ -118,6 +128,8 @@ static void *setup(void)
 int w_mstrToInt(void *es, long tok_id); int w_mlookahead(void *es); _Bool w_mmatch(void *es, int expect); void w_mcopy(void *es);
 void w_merror(void *es, int t, long msg_id);
 void h_mstrToInt(void) { void *p = setup(); w_mstrToInt(p, nondet_long()); CANARY; }
+_Bool w_mconv_agree(void *es, long tok_id);
+void h_mconv_agree(void) { void *p = setup(); w_mconv_agree(p, nondet_long()); CANARY; }
 void h_mlookahead(void) { void *p = setup(); w_mlookahead(p); CANARY; }
 void h_mmatch(void) { void *p = setup(); w_mmatch(p, nondet_int()); CANARY; }
 void h_mcopy(void) { void *p = setup(); w_mcopy(p); CANARY; }
